@@ -2,7 +2,7 @@
  * exact-size heap window (ASan sees any write past the granted capacity) and
  * decodes the finished frames with the library's own decoder of the same framing.
  *
- * case:  <id> <variant 0=cobs 1=cobs/r 2=zpe 3=zpe/r> <op> <args> ...
+ * case:  <id> <variant 0=cobs 1=cobs/r 2=zpe 3=zpe/r 4=zero-terminated command text> <op> <args> ...
  *   call CAP HEX      one encoder call, window = CAP bytes, data HEX ("-" = zero length)
  *   term CAP          one termination call (base = NULL)
  *   pushall SCHED HEX array_push-like loop: on MissingBuffer grow by the next increment of
@@ -20,8 +20,8 @@
 
 typedef ssize_t (*enc_fn)(MPT_STRUCT(encode_state) *, const struct iovec *, const struct iovec *);
 typedef int (*dec_fn)(MPT_STRUCT(decode_state) *, const struct iovec *, size_t);
-static enc_fn encs[] = { mpt_encode_cobs, mpt_encode_cobs_r, mpt_encode_cobs_zpe, mpt_encode_cobs_zpe_r };
-static dec_fn decs[] = { mpt_decode_cobs, mpt_decode_cobs_r, mpt_decode_cobs_zpe, mpt_decode_cobs_zpe_r };
+static enc_fn encs[] = { mpt_encode_cobs, mpt_encode_cobs_r, mpt_encode_cobs_zpe, mpt_encode_cobs_zpe_r, mpt_encode_string };
+static dec_fn decs[] = { mpt_decode_cobs, mpt_decode_cobs_r, mpt_decode_cobs_zpe, mpt_decode_cobs_zpe_r, mpt_decode_command };
 
 static uint8_t *win;
 static size_t cap;
